@@ -19,12 +19,13 @@ Fix == [tail |-> FixTail, detect |-> FixDetect]
 Texts == UNION {[1..n -> Cps] : n \in 0..MaxText}
 
 Full(e, bom, text) == WriterBytes(e, bom, text)
-Mark(s) == DefaultMark(s.tw)
+\* the configured error mark is a dimension of the scenario (default, custom "<?>", nullptr = skip silently)
+Mark(s) == IF s.mk = "def" THEN DefaultMark(s.tw) ELSE IF s.mk = "cust" THEN EncodeCps(s.tw, <<60, 63, 62>>) ELSE <<>>
 
 Init ==
   /\ \E e \in Schemes, bom \in BOOLEAN, text \in Texts, tw \in TWs, skip \in BOOLEAN, C \in ChunkSizes :
-       \E keep \in 0..Len(Full(e, bom, text)) :
-          /\ scn = [e |-> e, bom |-> bom, text |-> text, keep |-> keep, tw |-> tw, skip |-> skip, C |-> C]
+       \E keep \in 0..Len(Full(e, bom, text)), mk \in (IF skip THEN {"def", "cust", "null"} ELSE {"def"}) :
+          /\ scn = [e |-> e, bom |-> bom, text |-> text, keep |-> keep, tw |-> tw, skip |-> skip, C |-> C, mk |-> mk]
           /\ m = MConstruct(SubSeq(Full(e, bom, text), 1, keep), C, Fix)
   /\ out = <<>>
   /\ res = "none"
